@@ -87,17 +87,32 @@ func graphSource(defs []gdef) string {
 	return b.String()
 }
 
+// classify: which kind of selection error a message reports, by keywords (the exact wording is not part of C03);
+// "other:..." when the message matches none
 func classify(err error) string {
 	m := err.Error()
+	lm := strings.ToLower(m)
+	has := func(ws ...string) bool {
+		for _, w := range ws {
+			if strings.Contains(lm, w) {
+				return true
+			}
+		}
+		return false
+	}
 	switch {
 	case strings.Contains(m, "Spokfile has no task"):
 		return "undefined-requested"
 	case strings.Contains(m, "which does not exist"):
 		return "undefined-dep"
-	case strings.Contains(m, "Duplicate task"):
+	case has("duplicate", "more than once", "twice", "already contains", "already defined"):
 		return "duplicate"
-	case strings.Contains(m, "cycle"):
+	case has("cycle", "cyclic", "circular"):
 		return "cycle"
+	case has("depend") && has("does not exist", "undefined", "not defined", "unknown", "no such", "no task"):
+		return "undefined-dep"
+	case has("does not exist", "undefined", "not defined", "unknown task", "no such task", "no task"):
+		return "undefined-requested"
 	}
 	return "other:" + strings.SplitN(m, "\n", 2)[0]
 }
@@ -212,17 +227,18 @@ func orderProblem(g gref, obs []int, complete bool) string {
 }
 
 type graphStats struct {
-	Cases       int            `json:"cases"`
-	Runs        int            `json:"runs_including_repetitions"`
-	Nontrivial  int            `json:"distinct_nontrivial"`
-	BySource    map[string]int `json:"by_source"`
-	Outcomes    map[string]int `json:"outcomes"`
-	Vertices    map[string]int `json:"defined_tasks_histogram"`
-	OrdersSeen  int            `json:"cases_where_repetitions_gave_different_orders"`
-	Exhaustive  string         `json:"exhaustive_part"`
-	Samples     []string       `json:"samples"`
-	OracleFail  map[string]int `json:"oracle_failures"`
-	WithFailure int            `json:"cases_with_failing_command"`
+	Cases          int            `json:"cases"`
+	Runs           int            `json:"runs_including_repetitions"`
+	Nontrivial     int            `json:"distinct_nontrivial"`
+	BySource       map[string]int `json:"by_source"`
+	Outcomes       map[string]int `json:"outcomes"`
+	Vertices       map[string]int `json:"defined_tasks_histogram"`
+	OrdersSeen     int            `json:"cases_where_repetitions_gave_different_orders"`
+	Exhaustive     string         `json:"exhaustive_part"`
+	Samples        []string       `json:"samples"`
+	OracleFail     map[string]int `json:"oracle_failures"`
+	WithFailure    int            `json:"cases_with_failing_command"`
+	UnknownWording int            `json:"errors_in_unrecognised_wording_taken_as_the_only_possible_kind"`
 }
 
 func graphCmd(args []string) error {
@@ -305,6 +321,12 @@ func graphCmd(args []string) error {
 						res = "OK"
 					}
 				}
+			}
+			if strings.HasPrefix(res, "ERR other:") && res != "ERR other:parse" && single == 1 && len(ref.classes) == 1 {
+				// an error in words this harness does not know: that there is an error is what C03 asks for; which kind it is cannot be
+				// judged, so it is taken to be the one kind that is possible here (counted in the evidence)
+				st.UnknownWording++
+				res = "ERR " + keysOf(ref.classes)[0]
 			}
 			cls := res
 			if strings.HasPrefix(res, "ERR") && single == 0 {
